@@ -35,12 +35,24 @@ def _real(p) -> str:
         _ACTIVE = saved
 
 
+def _lexical(p) -> str:
+    if isinstance(p, bytes):
+        p = os.fsdecode(p)
+    if isinstance(p, int):
+        return f'<fd {p}>'
+    return os.path.abspath(os.fspath(p))
+
+
 class Refused(PermissionError):
     pass
 
 
 class Jail:
-    def __init__(self, root: str) -> None:
+    def __init__(self, root: str, cheap: bool = False) -> None:
+        # cheap: no call log, no realpath (one lstat per path component per
+        # call); mutations are still confined by a lexical prefix test.  Used
+        # by checks that need the jail only for safety, not as an observer.
+        self.cheap = cheap
         self.root = _real(root)
         self.log: list[tuple] = []        # (op, paths..., mutating)
         self.refused: list[tuple] = []
@@ -55,7 +67,13 @@ class Jail:
         return rp == self.root or rp.startswith(self.root + os.sep)
 
     def note(self, op: str, *paths, mutating: bool):
-        rps = tuple(_real(p) for p in paths)
+        if self.cheap:
+            if not mutating:
+                return ()
+            rps = tuple(p if isinstance(p, str) and p.startswith('<fd')
+                        else _lexical(p) for p in paths)
+        else:
+            rps = tuple(_real(p) for p in paths)
         if self.recording:
             self.log.append((op, rps, mutating))
         if mutating:
